@@ -1012,9 +1012,6 @@ func extrapolateStatementWithPairedComponents(s *tree.Statement, pairs []string)
 			// Complete decomposed partial statement with parsed linear statement (can only be one statement in decomposed pair combinations)
 			tpNode[0].Entry = tree.CopyComponentsFromStatement(tpNode[0].Entry.(*tree.Statement), s)
 
-			// Assign statement to statement tree (top-level extrapolated structure)
-			v2.Parent = idvStmt
-
 			// Replace Entry content
 			v2.Entry = tpNode
 		}
